@@ -158,7 +158,7 @@ enum Flow {
     Resume(ResumeKind),
     End,
     /// unhandled error: code (None = any defined code), failing statement, call sites innermost first
-    Abort(Option<i32>, StmtId, Vec<StmtId>),
+    Abort(Option<i32>, StmtId, Vec<u32>),
 }
 
 /// Why execution of the model stops before the program ends.
@@ -193,7 +193,9 @@ pub struct Model<'a> {
     // state
     occ: HashMap<StmtId, u32>,
     frames: Vec<Frame>,
-    callsites: Vec<StmtId>,
+    callsites: Vec<u32>,
+    /// row of the source line whose expression is being evaluated
+    row_override: Option<u32>,
     handler: HandlerMode,
     in_handler: u32,
     err: i64,
@@ -260,6 +262,7 @@ impl<'a> Model<'a> {
             occ: HashMap::new(),
             frames: vec![Frame::default()],
             callsites: vec![],
+            row_override: None,
             handler: HandlerMode::Off,
             in_handler: 0,
             err: 0,
@@ -394,7 +397,7 @@ impl<'a> Model<'a> {
         }
     }
 
-    fn expect_outcome_error(&mut self, code: Option<i32>, stmt: StmtId, sites: &[StmtId]) -> R<()> {
+    fn expect_outcome_error(&mut self, code: Option<i32>, stmt: StmtId, sites: &[u32]) -> R<()> {
         match self.outcome {
             Outcome::Error {
                 code: got,
@@ -424,7 +427,7 @@ impl<'a> Model<'a> {
                     want_rows.push(row);
                 }
                 for s in sites {
-                    want_rows.push(self.em.starts.get(s).map(|p| p.0).unwrap_or(0));
+                    want_rows.push(*s);
                 }
                 let got_rows: Vec<u32> = positions.iter().map(|p| p.0).collect();
                 if got_rows != want_rows {
@@ -768,8 +771,11 @@ impl<'a> Model<'a> {
                 if self.eval_int(cond, s.id)? != 0 {
                     return Ok(Ok(self.exec_list(then_b, 0, false)?));
                 }
-                for (c, b) in elseifs {
-                    if self.eval_int(c, s.id)? != 0 {
+                for (ei, (c, b)) in elseifs.iter().enumerate() {
+                    self.row_override = self.em.extra_rows.get(&(s.id, ei + 1)).copied();
+                    let v = self.eval_int(c, s.id);
+                    self.row_override = None;
+                    if v? != 0 {
                         return Ok(Ok(self.exec_list(b, 0, false)?));
                     }
                 }
@@ -883,7 +889,10 @@ impl<'a> Model<'a> {
                         other => return Ok(Ok(other)),
                     }
                     if !*top {
-                        let c = self.eval_int(cond, s.id)? != 0;
+                        self.row_override = self.em.extra_rows.get(&(s.id, 1)).copied();
+                        let v = self.eval_int(cond, s.id);
+                        self.row_override = None;
+                        let c = v? != 0;
                         if c == *until {
                             break;
                         }
@@ -898,9 +907,10 @@ impl<'a> Model<'a> {
             } => {
                 self.report.statements += 1;
                 let v = self.eval_int(expr, s.id)?;
-                for (specs, b) in cases {
+                for (ci, (specs, b)) in cases.iter().enumerate() {
                     let mut hit = false;
                     for sp in specs {
+                        self.row_override = self.em.extra_rows.get(&(s.id, ci + 1)).copied();
                         let m = match sp {
                             CaseSpec::Simple(e) => self.eval_int(e, s.id)? == v,
                             CaseSpec::Is(op, e) => {
@@ -913,11 +923,13 @@ impl<'a> Model<'a> {
                                 x <= v && v <= y
                             }
                         };
+                        self.row_override = None;
                         if m {
                             hit = true;
                             break;
                         }
                     }
+                    self.row_override = None;
                     if hit {
                         let f = self.exec_list(b, 0, false)?;
                         if let Flow::Goto(_) = f {
@@ -1224,7 +1236,12 @@ impl<'a> Model<'a> {
             f.ints.insert(n.to_uppercase(), *v);
         }
         self.frames.push(f);
-        self.callsites.push(site);
+        let row = match self.row_override {
+            Some(r) => r,
+            None => self.em.starts.get(&site).map(|p| p.0).unwrap_or(0),
+        };
+        let saved_override = self.row_override.take();
+        self.callsites.push(row);
         self.report.max_call_depth = self.report.max_call_depth.max(self.callsites.len());
         if self.callsites.len() >= 2 {
             self.probe("call_depth_2_or_more");
@@ -1232,6 +1249,7 @@ impl<'a> Model<'a> {
         let flow = self.exec_list(&p.body, 0, true);
         let frame = self.frames.pop().unwrap();
         self.callsites.pop();
+        self.row_override = saved_override;
         let flow = flow?;
         match flow {
             Flow::Next | Flow::ExitProc => {
@@ -1298,6 +1316,16 @@ impl<'a> Model<'a> {
         }
     }
 
+    /// INTEGER arithmetic outside -32768..32767 belongs to another property (numeric
+    /// range); the model does not follow a program there.
+    fn in_range(v: i64) -> R<Val> {
+        if (-32768..=32767).contains(&v) {
+            Ok(Val::I(v))
+        } else {
+            Err(Stop::Early("integer value outside the INTEGER range".into()))
+        }
+    }
+
     fn eval_int(&mut self, e: &Expr, site: StmtId) -> R<i64> {
         match self.eval(e, site)? {
             Val::I(i) => Ok(i),
@@ -1318,12 +1346,18 @@ impl<'a> Model<'a> {
                 let y = self.eval(b, site)?;
                 match (x, y) {
                     (Val::S(p), Val::S(q)) => Val::S(p + &q),
-                    (Val::I(p), Val::I(q)) => Val::I(p + q),
+                    (Val::I(p), Val::I(q)) => Self::in_range(p + q)?,
                     _ => return Err(Stop::Early("mixed addition".into())),
                 }
             }
-            Expr::Sub(a, b) => Val::I(self.eval_int(a, site)? - self.eval_int(b, site)?),
-            Expr::Mul(a, b) => Val::I(self.eval_int(a, site)? * self.eval_int(b, site)?),
+            Expr::Sub(a, b) => {
+                let v = self.eval_int(a, site)? - self.eval_int(b, site)?;
+                Self::in_range(v)?
+            }
+            Expr::Mul(a, b) => {
+                let v = self.eval_int(a, site)? * self.eval_int(b, site)?;
+                Self::in_range(v)?
+            }
             Expr::Cmp(op, a, b) => {
                 let x = self.eval_int(a, site)?;
                 let y = self.eval_int(b, site)?;
@@ -1435,6 +1469,13 @@ impl<'a> Model<'a> {
                 Ok(())
             }
             None => {
+                if matches!(self.outcome, Outcome::Budget | Outcome::Panic { .. })
+                    && seg.alts.iter().all(|a| rest.len() < a.len())
+                {
+                    return Err(Stop::Early(
+                        "run ended abnormally before this output".into(),
+                    ));
+                }
                 let want = String::from_utf8_lossy(&seg.alts[0]).to_string();
                 let n = seg.alts[0].len().max(1) + 8;
                 let got = String::from_utf8_lossy(&rest[..rest.len().min(n)]).to_string();
